@@ -2,15 +2,15 @@
    ONLY theorem statements; each is closed by [exact] of a lemma of C10/Proofs*.v.
    [T] = the thenable objects of the program, [runs] = the program split into runs (one run = one
    outermost call into the runtime: RunString/RunProgram or a Go-side resolver), [fuel] = bound on
-   the number of jobs a drain may execute (a drain that hits it sets [exhausted] and accounts the
-   rest of the queue as dropped, so the statements below hold for EVERY fuel). *)
+   the number of jobs one drain may execute (a drain that hits it sets [exhausted] and accounts the
+   rest of the queue as dropped, so the statements below hold for EVERY program, split and fuel). *)
 From Coq Require Import List Arith Bool Permutation.
 Import ListNotations.
-From Verif.C10 Require Import Model Proofs Proofs2.
+From Verif.C10 Require Import Model Proofs Proofs2 Proofs3.
 
 (* 1. goja's machine (double-buffered drain loop of Runtime.leave, leaveAbrupt) reaches exactly the
       state of the specification machine (HostEnqueuePromiseJob = plain FIFO): same event log, same
-      tracker log, same promise states/results, same per-run outcomes — and same ghost history. *)
+      tracker log, same promise states/results, same per-run outcomes — and the same ghost history. *)
 Theorem promise_refines : forall T fuel runs,
   runI T fuel runs = runS T fuel runs.
 Proof. exact Proofs.runI_runS. Qed.
@@ -25,9 +25,10 @@ Theorem queue_empty_on_return : forall T fuel runs,
   queue (runI T fuel runs) = [].
 Proof. intros; rewrite Proofs.runI_runS; apply Proofs.runS_queue. Qed.
 
-(* 3. every enqueued job has a unique id; no job is executed twice; at return the executed and the
-      discarded jobs together are exactly the enqueued ones; a discarded job never ran. *)
-Theorem each_job_once : forall T fuel runs,
+(* 3. every enqueued job (reaction job or thenable job) has a unique id; no job is executed twice; at
+      return the executed and the discarded jobs together are exactly the enqueued ones; a discarded
+      job never ran. *)
+Theorem each_reaction_once : forall T fuel runs,
   let s := runI T fuel runs in
   NoDup (enq s) /\ NoDup (ran s) /\ NoDup (dropped s) /\ Permutation (ran s ++ dropped s) (enq s) /\
   (forall x, In x (dropped s) -> ~ In x (ran s)).
@@ -48,8 +49,79 @@ Theorem interrupt_discards : forall T fuel runs x,
   In x (dropped (runI T fuel runs)) -> ~ In x (ran (runI T fuel runs)).
 Proof. intros T fuel runs. exact (proj2 (proj2 (proj2 (proj2 (Proofs2.accounting T fuel runs))))). Qed.
 
+(* 5. settle once.  fulfill/reject (which, as in goja, do not test the state) are called at most once
+      per promise over the whole history: the alreadyResolved latches and the one-fresh-pair-per-
+      thenable-job discipline guarantee it.  [settles] records every call. *)
+Theorem settle_once : forall T fuel runs,
+  NoDup (settles (runI T fuel runs)) /\
+  (forall p, In p (settles (runI T fuel runs)) ->
+     exists pr, get_prom p (runI T fuel runs) = Some pr /\ p_state pr <> Pending).
+Proof. intros; split; [apply Proofs3.settle_once | apply Proofs3.settled_are_settled]. Qed.
+
+(* ... and calls through a latched pair are no-ops, in any state *)
+Theorem latched_pair_is_noop : forall T r x s pa,
+  get_pair r s = Some pa -> pr_latched pa = true -> resolve_fn T r x s = s /\ reject_fn r x s = s.
+Proof. exact Proofs3.latched_noop. Qed.
+
+(* 6. HostPromiseRejectionTracker language, per promise (named or internal):
+      not rejected                      -> the tracker never heard of it
+      rejected, handled = false         -> exactly [reject]
+      rejected, handled = true          -> nothing (a reaction existed before the rejection)
+                                           or [reject; handle] (first reaction added afterwards) *)
+Theorem tracker_language : forall T fuel runs p,
+  let s := runI T fuel runs in
+  match get_prom p s with
+  | None => tf p (tlog s) = []
+  | Some pr =>
+      match p_state pr, p_handled pr with
+      | Rejected, false => tf p (tlog s) = [TReject]
+      | Rejected, true => tf p (tlog s) = [] \/ tf p (tlog s) = [TReject; THandle]
+      | _, _ => tf p (tlog s) = []
+      end
+  end.
+Proof. exact Proofs3.tracker_language. Qed.
+
+Corollary tracker_prefix : forall T fuel runs p,
+  exists rest, tf p (tlog (runI T fuel runs)) ++ rest = [TReject; THandle].
+Proof. exact Proofs3.tracker_prefix. Qed.
+
+(* ---------------------------------------------------------------------------------------------- *)
+(* non-vacuity: concrete programs exercising each statement *)
+
+Definition h (id : nat) (r : ret) := Some (mkScript id [] r).
+(* p0 rejected with no handler (reject), handler added in a later run (handle), chains of different
+   length interleave, a thenable resolves p1, a handler returns a promise, p2 resolved twice *)
+Definition ex_T := [TFun 200 [TRes (VInt 7); TRej (VInt 8)]].
+Definition ex_runs : list (list op) :=
+  [ [ONew; ONew; ONew; ORej 0 (VInt 1); ORes 1 (VThen 0); ORes 2 (VInt 5); ORes 2 (VInt 6);
+     OThen 1 (h 1 RetArg) None; OThen 2 (h 2 (RetVal (VProm (PN 1)))) None; OThen 4 (h 3 (Throw (VInt 9))) None];
+    [OThen 0 None (h 4 RetArg); OComb CAll [VProm (PN 1); VProm (PN 2); VInt 3]] ].
+
+Example ex_log :
+  log (runI ex_T 100 ex_runs) = [(200, VUndef); (2, VInt 5); (1, VInt 7); (3, VInt 7); (4, VInt 1)]
+  /\ tf (PN 0) (tlog (runI ex_T 100 ex_runs)) = [TReject; THandle]
+  /\ length (ran (runI ex_T 100 ex_runs)) = 10 /\ dropped (runI ex_T 100 ex_runs) = []
+  /\ exhausted (runI ex_T 100 ex_runs) = false
+  /\ length (settles (runI ex_T 100 ex_runs)) = 13.
+Proof. vm_compute. repeat split. Qed.
+
+(* an interrupt in the first of three queued handlers: the other two jobs are discarded and never
+   run; the next run works *)
+Definition ex_intr : list (list op) :=
+  [ [ONew; ORes 0 (VInt 1); OThen 0 (h 1 Intr) None; OThen 0 (h 2 RetArg) None; OThen 0 (h 3 RetArg) None];
+    [OThen 0 (h 4 RetArg) None] ].
+Example ex_interrupt :
+  log (runI [] 100 ex_intr) = [(1, VInt 1); (4, VInt 1)]
+  /\ length (dropped (runI [] 100 ex_intr)) = 2 /\ length (ran (runI [] 100 ex_intr)) = 2
+  /\ outs (runI [] 100 ex_intr) = [(true, 0, 1); (false, 0, 2)].
+Proof. vm_compute. repeat split. Qed.
+
 Print Assumptions promise_refines.
 Print Assumptions queue_empty_on_return.
-Print Assumptions each_job_once.
+Print Assumptions each_reaction_once.
 Print Assumptions each_job_exactly_once.
 Print Assumptions interrupt_discards.
+Print Assumptions settle_once.
+Print Assumptions latched_pair_is_noop.
+Print Assumptions tracker_language.
+Print Assumptions tracker_prefix.
